@@ -3,7 +3,7 @@ import random
 
 from . import c15, engine, relprops, relrun
 LEVEL = 'proof'
-W = {'rect': 0.25, 'oct': 0.3, 'share': 0.15, 'lat': 0.1, 'gp': 0.2, 'fan': 0.12, 'sliver': 0.12, 'boxes': 0.05, 'near': 0.12, 'ulp32': 0.12}
+W = {'rect': 0.25, 'oct': 0.3, 'share': 0.15, 'lat': 0.1, 'gp': 0.2, 'fan': 0.12, 'sliver': 0.25, 'boxes': 0.05, 'near': 0.12, 'ulp32': 0.12}
 
 
 def run(rep, tier, seed):
